@@ -1583,7 +1583,7 @@ def stage_strlib(ctx):
 
 def stage_envview(ctx):
     rng = ctx.sub_rng("envview")
-    n = ctx.scale(320, 3000)
+    n = ctx.scale(320, 2400)
     maxlen = ctx.scale(8, 14)
     cases = []
     for spec, ops in KNOWN_WITNESSES:
@@ -1633,7 +1633,7 @@ def stage_oracle(ctx):
     oracle_many(ctx, "exhaustive-small", jobs)
 
     rng = ctx.sub_rng("oracle")
-    m = ctx.scale(1600, 30000)
+    m = ctx.scale(1600, 24000)
     jobs = []
     for i in range(m):
         focus = [None, "mixed-cache", None, "body", "mixed-cache", None][i % 6]
